@@ -218,6 +218,8 @@ theorem SRel.init {N : NumOps} (Q : QRel) (externs : List String)
   pinR := fun _ hp => by cases hp
   pinT := fun _ hp => by cases hp
   pinC := fun _ hp => by cases hp
+  pinTl := fun _ hp => by cases hp
+  pinCl := fun _ hp => by cases hp
   inv := hI
 
 /-- **change of context / closure-body relation** while no closures are related yet (e.g. right after the two
@@ -239,6 +241,8 @@ theorem SRel.rebase {N : NumOps} {Q Q' : QRel} {cx' : Cx} {β : Inj N} {σ σ' :
   pinR := h.pinR
   pinT := h.pinT
   pinC := h.pinC
+  pinTl := h.pinTl
+  pinCl := h.pinCl
   inv := hI
 
 /-- what `runChunk` makes of the control result of its block -/
